@@ -50,7 +50,7 @@ Qed.
    pthread_create and io_worker_count++ *)
 Definition cnt_of (th : thread) : Z :=
   match th with
-  | TP pc _ => match pc with P_UnlockExit | P_Exit => 0 | _ => 1 end
+  | TP pc _ => match pc with P_UnlockExit | P_Exit => 0 | _ => 1 end      (* P_DecrX still counts *)
   | TW W_Incr _ _ => -1
   | _ => 0
   end.
@@ -64,11 +64,14 @@ Definition midenq (th : thread) : bool :=
 Definition PI (mx : Z) (st : state) : Prop :=
   s_max st = mx /\
   (s_pe st = false -> s_bad st = O) /\
+  (s_old st = false -> s_bad st = O) /\
   s_count st = zsum cnt_of (s_thr st) + Z.of_nat (s_bad st) /\
-  0 <= s_count st /\
+  (s_pe st = false -> 0 <= s_count st) /\
   (forall t it, nth_error (s_thr st) t = Some (TP P_Decr it) -> q_len (s_q st) <= 0) /\
   (forall t it, nth_error (s_thr st) t = Some (TP P_Deq it) -> q_head (s_q st) <> None) /\
-  (0 < q_len (s_q st) -> 1 <= s_count st \/ exists t th, nth_error (s_thr st) t = Some th /\ midenq th = true).
+  (s_pe st = false -> forall t it, nth_error (s_thr st) t <> Some (TP P_DecrX it)) /\
+  (s_pe st = false -> 0 < q_len (s_q st) ->
+   1 <= s_count st \/ exists t th, nth_error (s_thr st) t = Some th /\ midenq th = true).
 
 Lemma other_change_worker : forall l n pc j r, other_change l n (TW pc j r) -> nth_error l n = Some (TW pc j r).
 Proof. intros l n pc j r [H | [[it [_ H]] | [_ H]]]; auto; discriminate. Qed.
@@ -117,21 +120,54 @@ Ltac c4_decr st t Hn Excl :=
      exfalso; assert (n = t) by (eapply Excl; [reflexivity | reflexivity | exact Hx | reflexivity]); subst; congruence);
   let G := fresh "G" in pose proof (zsum_ge cnt_of _ _ _ NN Hn) as G; cbn [cnt_of] in G; lia.
 
+Ltac c56 t Hnew Hoth KK L1 Excl LH :=
+  let n := fresh "n" in let it0 := fresh "it0" in let Hx := fresh "Hx" in let Hne := fresh "Hne" in let E := fresh "E" in
+  intros n it0 Hx; destruct (Nat.eq_dec n t) as [->|Hne];
+  [ rewrite Hnew in Hx; first [discriminate Hx | (apply LH; first [assumption | reflexivity]) | congruence]
+  | apply Hoth in Hx; [|exact Hne]; apply other_change_proxy in Hx; [|discriminate|discriminate];
+    first [ exact (KK _ _ Hx)
+          | (cbn [clear_next q_len q_head]; exact (KK _ _ Hx))
+          | (exfalso; apply Hne; eapply Excl; [reflexivity | reflexivity | exact Hx | reflexivity])
+          | (exfalso; pose proof (proj1 (L1 _ _ Hx) eq_refl) as E; unfold lock_free in *; rewrite E in *; discriminate) ] ].
+
+Ltac c8 t Hnew Hoth K3 :=
+  let n := fresh "n" in let it0 := fresh "it0" in let Hx := fresh "Hx" in let Hne := fresh "Hne" in let E := fresh "E" in
+  intros E n it0 Hx; first [discriminate E |
+  destruct (Nat.eq_dec n t) as [->|Hne];
+  [ rewrite Hnew in Hx; first [discriminate Hx | congruence]
+  | apply Hoth in Hx; [|exact Hne]; apply other_change_proxy in Hx; [|discriminate|discriminate];
+    eapply K3; [first [assumption | reflexivity | congruence] | exact Hx] ] ].
+
+Ltac c9 st t c Hn Hnew P J K K3 :=
+  let E := fresh "E" in let Hl := fresh "Hl" in let P0 := fresh "P0" in let P1 := fresh "P1" in
+  let t0 := fresh "t0" in let th0 := fresh "th0" in let N0 := fresh "N0" in let M0 := fresh "M0" in let Hne0 := fresh "Hne0" in
+  intros E Hl; first [discriminate E |
+   (right; exists t; eexists; split; [exact Hnew | reflexivity]) |
+   (pose proof (P ltac:(first [assumption | reflexivity | congruence])) as P0;
+    try (pose proof (J ltac:(first [assumption | reflexivity | congruence])));
+    try match goal with Hd : deq (s_q st) = Some _ |- _ =>
+          unfold deq in Hd; destruct (q_head (s_q st)); inversion Hd; subst; cbn [q_len] in * end;
+    cbn [clear_next q_len] in Hl;
+    destruct P0 as [P1 | [t0 [th0 [N0 M0]]]]; [lia | |];
+    [ left; first [lia | (pose proof (K _ _ Hn); lia) | (exfalso; eapply K3; [first [assumption | reflexivity | congruence] | exact Hn])]
+    | destruct (Nat.eq_dec t0 t) as [->|Hne0];
+      [ rewrite Hn in N0; inversion N0; subst th0; cbn [midenq] in M0; try discriminate M0;
+        left; rewrite ?Z.ltb_lt, ?Z.ltb_ge in *; lia
+      | right; exists t0, th0; split; [|exact M0]; rewrite nth_upd_neq by auto;
+        first [exact N0 | (destruct th0 as [? ? ?| |]; try discriminate M0; apply wake_keeps_worker; exact N0)] ] ]) ].
+
 Lemma pi_step : forall all mx st t c st', 1 <= mx -> NoDup all -> QInv all st -> LockInv st -> PI mx st ->
   step st t c = Some st' -> PI mx st'.
 Proof.
-  intros all mx st t c st' Hmx ND HQ HL [M [B [C [J [K [K2 P]]]]]] H.
+  intros all mx st t c st' Hmx ND HQ HL [M [B [B2 [C [J [K [K2 [K3 P]]]]]]]] H.
   pose proof (qinv_step _ _ _ _ _ ND HQ H) as HQ'.
-  pose proof (lock_inv_step _ _ _ _ HL H) as HL'.
   assert (Hoth := fun n x => step_others st t c st' n x H).
   destruct HQ as [l [QL _]]. destruct HQ' as [l' [QL' _]].
   pose proof (qlist_len_head _ _ QL) as LH. pose proof (qlist_len_head _ _ QL') as LH'.
   destruct HL as [L1 L2].
-  (* threads other than t that are inside the critical section do not exist while t is *)
   assert (Excl : forall th n x, nth_error (s_thr st) t = Some th -> holds th = true -> nth_error (s_thr st) n = Some x ->
                  holds x = true -> n = t).
   { intros th n x N Hh Nx Hx. apply (L1 t th N) in Hh. apply (L1 n x Nx) in Hx. congruence. }
-  assert (Tl : forall th, nth_error (s_thr st) t = Some th -> (t < length (s_thr st))%nat) by (intros; eapply nth_some_lt; eauto).
   step_cases H Hn;
     repeat match type of H with
            | context [if ?b then _ else _] => destruct b eqn:?; try discriminate H
@@ -139,11 +175,15 @@ Proof.
            end;
     inversion H; subst; clear H; unfold PI; cbn_st.
   all: try match goal with |- context [match ?x with [] => TW W_Done _ [] | _ :: _ => _ end] => destruct x end.
+  all: try match goal with |- context [match q_head ?q with _ => _ end] => destruct (q_head q) eqn:Hh end.
   all: mk_new t Hn.
   all: split; [reflexivity|].
   all: split; [try (intro E; first [exact (B E) | (apply B; reflexivity) | congruence | discriminate])|].
+  all: split; [try (intro E; first [exact (B2 E) | (apply B2; reflexivity) | congruence | discriminate])|].
   all: split; [first [c3_simple st t Hn | c3_spawn st t Hn | c3_signal st t c Hn]|].
-  all: split; [first [lia | c4_decr st t Hn Excl]|].
-  all: split.
-Show.
-Abort.
+  all: split; [try (intro E; first [discriminate E | (assert (J0 : 0 <= s_count st) by (apply J; first [assumption | reflexivity | congruence]); first [lia | c4_decr st t Hn Excl]) | (exfalso; eapply K3; [first [assumption | reflexivity | congruence] | eauto])])|].
+  all: split; [c56 t Hnew Hoth K L1 Excl LH|].
+  all: split; [c56 t Hnew Hoth K2 L1 Excl LH|].
+  all: split; [c8 t Hnew Hoth K3|].
+  all: c9 st t c Hn Hnew P J K K3.
+Qed.
